@@ -1,7 +1,7 @@
 (* Check_C03.v — no document can crash, hang or kill the server: what the harness observed when
    it ran every operation of the server on one text (outcome per operation group), the
    correspondence of the builder model's panic prediction, and the known-finding classifiers. *)
-From IweV Require Export Check_Norm.
+From IweV Require Export Check_Norm BuilderFacts.
 Local Open Scope string_scope.
 Local Open Scope list_scope.
 
@@ -26,22 +26,8 @@ Definition panicked_groups (c : c3case) : list N :=
 Definition model_build_panics (bs : list dblock) : bool :=
   negb (is_ok (build_document [] "n" bs)).
 
-(* class 1 (F1): some list item starts with a code block, quote, table or rule *)
-Fixpoint item_leads_ok (b : dblock) {struct b} : bool :=
-  let fix go (l : list dblock) : bool := match l with [] => true | x :: r => item_leads_ok x && go r end in
-  let fix goi (l : list (list dblock)) : bool :=
-    match l with
-    | [] => true
-    | it :: r => (match it with
-                  | (DCode _ _ _ | DQuote _ _ | DTable _ _ _ _ | DRule _) :: _ => false
-                  | _ => true
-                  end) && go it && goi r
-    end in
-  match b with
-  | DQuote _ bs => go bs
-  | DOList its | DBList its => goi its
-  | _ => true
-  end.
+(* class 1 (F1): some list item starts with a code block, quote, table or rule:
+   [item_leads_ok] of BuilderFacts.v, the hypothesis of the totality theorem *)
 
 (* class 3 (F3): some list whose first item is empty *)
 Fixpoint first_items_nonempty (b : dblock) {struct b} : bool :=
@@ -79,5 +65,25 @@ Definition c3_corr (c : c3case) : list N :=
   | Panic _ => []
   end.
 
+(* which operation groups a class can explain: a failure in a group that no class of the input
+   explains stays unclassified (and is reported) *)
+Definition explains (cls g : N) : bool :=
+  match cls with
+  | 1 => N.eqb g 2                       (* builder panic while loading *)
+  | 2 => true                            (* corrupted arena: anything afterwards *)
+  | 3 => N.eqb g 7 || N.eqb g 8          (* link_at *)
+  | 4 => true                            (* too large to dump: stack *)
+  | 5 => N.eqb g 11                      (* resolving the inline actions of a block reference *)
+  | 6 => N.eqb g 8                       (* key_range with shifted columns *)
+  | _ => false
+  end%N.
+
+Definition c3_explained (c : c3case) : list N :=
+  let cls := c3_classes c in
+  let failing := panicked_groups c in
+  if forallb (fun g => existsb (fun k => explains k g) cls) failing
+  then filter (fun k => existsb (explains k) failing) cls
+  else [].
+
 Definition run_C03 (c : c3case) : verdict :=
-  V (c3_corr c) (panicked_groups c) (c3_classes c) (Nat.ltb 20 (c3_size c)).
+  V (c3_corr c) (panicked_groups c) (c3_explained c) (Nat.ltb 20 (c3_size c)).
